@@ -458,12 +458,15 @@ func passEdgesDepth(fn *ssa.Function, depth int, guards ...Guard) (map[Edge]bool
 		reach := ReachBlocks(fn, nil, edges)
 		for _, T := range []bool{true, false} {
 			all, some := true, false
+			dead := false
 			matched := make([]int, len(guards))
 			for i, e := range phi.Edges {
 				pred := phi.Block().Preds[i]
 				if !reach[pred] {
-					// this way of computing the phi is only reachable through a pass edge already
-					some = true
+					// this way of computing the phi is only reachable through a pass edge already:
+					// it cannot make the phi T on an uncut path. On its own it makes the branch dead
+					// under the cut, not a guard (no count, not complemented by FailEdges).
+					dead = true
 					continue
 				}
 				if k, isK := e.(*ssa.Const); isK && k.Value != nil && k.Value.Kind() == constant.Bool {
@@ -495,6 +498,17 @@ func passEdgesDepth(fn *ssa.Function, depth int, guards ...Guard) (map[Edge]bool
 				}
 				some = true
 			}
+			if all && !some && dead {
+				// every way of the phi being T lies behind pass edges
+				if !noDeadEdges {
+					if T != neg {
+						edges[Edge{b, 0}] = true
+					} else {
+						edges[Edge{b, 1}] = true
+					}
+				}
+				continue
+			}
 			if !all || !some {
 				continue
 			}
@@ -514,9 +528,15 @@ func passEdgesDepth(fn *ssa.Function, depth int, guards ...Guard) (map[Edge]bool
 	return edges, counts
 }
 
+// noDeadEdges: set while FailEdges computes the pass edges it complements (branches that are merely
+// dead under the cut are not guards and have no fail edge).
+var noDeadEdges bool
+
 // FailEdges is the complement of PassEdges at the matching Ifs.
 func FailEdges(fn *ssa.Function, guards ...Guard) map[Edge]bool {
+	noDeadEdges = true
 	pe, _ := PassEdges(fn, guards...)
+	noDeadEdges = false
 	out := map[Edge]bool{}
 	for e := range pe {
 		out[Edge{e.From, 1 - e.Idx}] = true
